@@ -298,7 +298,7 @@ class Inliner:
     def _helper_body(self, helper, depth, stack):
         from .core import FuncInfo
         node = self.inline_function(helper, depth - 1, stack)
-        g = generator_as_expression(node)
+        g = generator_as_expression(node) or search_as_expression(node)
         return g if g is not None else node
 
     def _expr(self, e, owner, depth, stack):
@@ -560,4 +560,42 @@ def generator_as_expression(fn):
     gen = ast.GeneratorExp(elt=value, generators=[ast.comprehension(target=copy.deepcopy(loop.target), iter=copy.deepcopy(loop.iter), ifs=conds, is_async=0)])
     new = copy.copy(fn)
     new.body = [ast.Return(value=gen)]
+    return ast.fix_missing_locations(ast.copy_location(new, fn))
+
+
+def search_as_expression(fn):
+    """a first-match search helper  `for i, x in enumerate(L): if x == key: return i` followed by `raise ...`  is  `L.index(key)`
+    (list.index itself compares with `is` or `==` and raises when nothing matches): returns fn with body `return L.index(key)`"""
+    body = _strip_doc(fn.body)
+    if len(body) != 2 or not isinstance(body[0], ast.For) or body[0].orelse or not isinstance(body[1], ast.Raise):
+        return None
+    loop = body[0]
+    it = loop.iter
+    if not (isinstance(it, ast.Call) and isinstance(it.func, ast.Name) and it.func.id == "enumerate" and len(it.args) == 1 and
+            isinstance(loop.target, ast.Tuple) and len(loop.target.elts) == 2 and all(isinstance(t, ast.Name) for t in loop.target.elts)):
+        return None
+    i_, x_ = loop.target.elts[0].id, loop.target.elts[1].id
+    if len(loop.body) != 1 or not isinstance(loop.body[0], ast.If) or loop.body[0].orelse:
+        return None
+    iff = loop.body[0]
+    if len(iff.body) != 1 or not isinstance(iff.body[0], ast.Return) or not isinstance(iff.body[0].value, ast.Name) or iff.body[0].value.id != i_:
+        return None
+    # test:  x == key   or   x is key or x == key
+    tests = iff.test.values if isinstance(iff.test, ast.BoolOp) and isinstance(iff.test.op, ast.Or) else [iff.test]
+    key = None
+    for t in tests:
+        if not (isinstance(t, ast.Compare) and len(t.ops) == 1 and isinstance(t.ops[0], (ast.Eq, ast.Is))):
+            return None
+        l, r = t.left, t.comparators[0]
+        other = r if (isinstance(l, ast.Name) and l.id == x_) else (l if (isinstance(r, ast.Name) and r.id == x_) else None)
+        if other is None or any(isinstance(n, ast.Name) and n.id in (i_, x_) for n in ast.walk(other)):
+            return None
+        if key is not None and ast.dump(key) != ast.dump(other):
+            return None
+        key = other
+    if not any(isinstance(t.ops[0], ast.Eq) for t in tests):
+        return None
+    call = ast.Call(func=ast.Attribute(value=copy.deepcopy(it.args[0]), attr="index", ctx=ast.Load()), args=[copy.deepcopy(key)], keywords=[])
+    new = copy.copy(fn)
+    new.body = [ast.Return(value=call)]
     return ast.fix_missing_locations(ast.copy_location(new, fn))
